@@ -315,7 +315,7 @@ def translate(src_text):
         f"  {get}.",
         "",
         "(* CounterexampleHandler._solve_end_to_end_callback: the list the model goes to *)",
-        "Definition gen_callback_verdict (o : outcome) : verdict :=",
+        "Definition gen_callback_verdict (early_exit : bool) (o : outcome) : verdict :=",
         f"  {v}.",
         "",
         "(* ... and whether the solver executor is shut down afterwards *)",
